@@ -241,19 +241,31 @@ func TestC20Shapes(t *testing.T) {
 				x.err = nil
 			}
 			failing := map[*cnt]error{}
+			sameText := rapid.Bool().Draw(t, "identicalErrorTexts")
 			for i, c := range all {
 				if rapid.IntRange(0, 2).Draw(t, fmt.Sprintf("multiFail%d", i)) == 0 {
-					failing[c] = fmt.Errorf("reopen of %s failed (unique sentinel, several failures)", c.name)
+					if sameText {
+						failing[c] = errors.New("reopen failed: disk full") // distinct error values whose texts are identical
+					} else {
+						failing[c] = fmt.Errorf("reopen of %s failed (unique sentinel, several failures)", c.name)
+					}
 					c.err = failing[c]
 				}
 			}
 			err := b.Reopen(context.Background())
+			invoked := 0
+			for c := range failing {
+				if c.reopens.Load() > 0 {
+					invoked++
+				}
+			}
 			for c, sentinel := range failing {
 				c.err = nil
 				if c.reopens.Load() == 0 {
 					continue // the walk stopped before it reached this node
 				}
-				if err == nil || (!errors.Is(err, sentinel) && !strings.Contains(err.Error(), sentinel.Error())) {
+				carried := err != nil && (errors.Is(err, sentinel) || (!sameText && strings.Contains(err.Error(), sentinel.Error())) || (sameText && strings.Count(err.Error(), sentinel.Error()) >= invoked))
+				if !carried {
 					t.Fatalf("VIOLATION C20: %d nodes failed to reopen in one call; node %s was invoked and failed, but the returned error (%v) does not carry its failure\ncase: %s", len(failing), c.name, err, d)
 				}
 			}
